@@ -39,12 +39,145 @@ fn c04_set_output() -> bool {
     got == want
 }
 
+
+fn no_panic<F: FnOnce() -> bool + std::panic::UnwindSafe>(f: F) -> bool {
+    match std::panic::catch_unwind(f) { Ok(v) => v, Err(_) => { println!("PANICKED"); false } }
+}
+
+fn c02_truncated_direct_push() -> bool {
+    // KNOWN FINDING: a direct push that runs past the end is accepted and truncated
+    match Script::from_bytes(&[0x02, 0x01]) { Ok(s) => { println!("accepted; re-serialises as {}", hex(&s.to_bytes())); false } Err(_) => true }
+}
+fn c02_truncated_pushdata() -> bool {
+    match Script::from_bytes(&[0x4c, 0x03, 0x01]) { Ok(s) => { println!("accepted; re-serialises as {}", hex(&s.to_bytes())); false } Err(_) => true }
+}
+fn c02_pushdata_65536() -> bool { Script::get_pushdata_bytes(65536).map(|b| b == vec![0x4e, 0, 0, 1, 0]).unwrap_or(false) }
+fn c01_varint_bytes_300() -> bool { let b = VarInt::get_varint_bytes(300); println!("{}", hex(&b)); b == vec![0xfd, 0x2c, 0x01] }
+fn c09_txout_huge_script_len() -> bool {
+    no_panic(|| TxOut::from_hex("0000000000000000ffffffffffffffffff").is_err())
+}
+fn c09_txout_truncated_script() -> bool {
+    // 8 byte value, script length 5, only one script byte present
+    no_panic(|| TxOut::from_hex("00000000000000000551").is_err())
+}
+fn c03_hash_sequence_le() -> bool {
+    let mut tx = sample_tx();
+    let s = Script::from_hex("51").unwrap();
+    let pre = tx.sighash_preimage(SigHash::InputsOutputs, 0, &s, 1).unwrap();
+    let mut seqs = vec![]; seqs.extend_from_slice(&0xfffffffeu32.to_le_bytes()); seqs.extend_from_slice(&5u32.to_le_bytes());
+    let want = Hash::sha_256d(&seqs).to_bytes();
+    println!("hashSequence in preimage: {}\nsha256d(LE sequences)   : {}", hex(&pre[36..68]), hex(&want));
+    pre[36..68] == want[..]
+}
+fn c10_nested_codeseparator() -> bool {
+    let mut s = Script::from_hex("63ab6851").unwrap(); // OP_IF OP_CODESEPARATOR OP_ENDIF OP_1
+    s.remove_codeseparators();
+    println!("{}", hex(&s.to_bytes()));
+    s.to_bytes() == vec![0x63, 0x68, 0x51]
+}
+fn c10_single_index1() -> bool {
+    let mut tx = sample_tx();
+    let s = Script::from_hex("51").unwrap();
+    let pre = tx.sighash_preimage(SigHash::SINGLE, 1, &s, 0).unwrap();
+    // outputs section must be: count 2, null output (ffffffffffffffff 00), then output 1
+    let out1 = tx.get_output(1).unwrap().to_bytes().unwrap();
+    let mut want = vec![2u8]; want.extend_from_slice(&[0xff; 8]); want.push(0); want.extend_from_slice(&out1);
+    let hay = hex(&pre); let needle = hex(&want);
+    println!("preimage {}\nexpected outputs section {}", hay, needle);
+    hay.contains(&needle)
+}
+fn c20_ctr_short_key() -> bool { no_panic(|| AES::encrypt(&[1, 2, 3], &[0; 16], b"hello", AESAlgorithms::AES128_CTR).is_err()) }
+fn c09_compact_empty() -> bool { no_panic(|| Signature::from_compact_bytes(&[]).is_err()) && no_panic(|| Signature::from_compact_bytes(&[0u8; 65]).is_err()) }
+fn c06_der_ending_in_flag_byte() -> bool {
+    // find a signature whose DER ends in a sighash flag value and check it round-trips
+    let key = PrivateKey::from_hex("0000000000000000000000000000000000000000000000000000000000000001").unwrap();
+    for i in 0u32..2000 {
+        let sig = key.sign_message(&i.to_le_bytes()).unwrap();
+        let der = sig.to_der_bytes();
+        if [0x01u8, 0x02, 0x03, 0x40, 0x41, 0x42, 0x43, 0x80, 0x81, 0x82, 0x83, 0xc1, 0xc2, 0xc3].contains(der.last().unwrap()) {
+            println!("message {} gives DER ending in {:02x}", i, der.last().unwrap());
+            return match Signature::from_der(&der) { Ok(s2) => s2.to_der_bytes() == der, Err(e) => { println!("rejected: {}", e); false } };
+        }
+    }
+    true
+}
+fn c09_digest_wrong_len() -> bool {
+    let key = PrivateKey::from_hex("0000000000000000000000000000000000000000000000000000000000000001").unwrap();
+    let pk = key.to_public_key().unwrap();
+    let sig = key.sign_message(b"x").unwrap();
+    no_panic(move || ECDSA::verify_hashbuf(&[0u8; 5], &pk, &sig).is_err())
+        && no_panic(|| ECDSA::sign_digest_with_deterministic_k(&PrivateKey::from_hex("0000000000000000000000000000000000000000000000000000000000000001").unwrap(), &[0u8; 31]).is_err())
+}
+fn c07_offcurve_pubkey() -> bool {
+    let mut b = vec![0x02u8]; b.extend_from_slice(&[0u8; 31]); b.push(5);
+    no_panic(move || match PublicKey::from_bytes(&b) { Ok(p) => { println!("accepted off-curve x"); p.to_decompressed().is_err() && false } Err(_) => true })
+        && no_panic(|| PublicKey::from_bytes(&[0u8]).is_err())
+}
+fn c09_wif_short() -> bool { no_panic(|| PrivateKey::from_wif("1").is_err()) }
+fn c07_short_address() -> bool {
+    let a = P2PKHAddress::from_pubkey_hash(&[0u8; 20]).unwrap();
+    let s = a.to_string().unwrap();
+    println!("{} ({} chars)", s, s.len());
+    P2PKHAddress::from_string(&s).is_ok()
+}
+fn c07_unlocking_script_testnet() -> bool {
+    let key = PrivateKey::from_hex("0000000000000000000000000000000000000000000000000000000000000001").unwrap();
+    let pk = key.to_public_key().unwrap();
+    let addr = pk.to_p2pkh_address().unwrap().set_chain_params(&ChainParams::testnet()).unwrap();
+    let mut tx = sample_tx();
+    let sig = tx.sign(&key, SigHash::InputsOutputs, 0, &Script::from_hex("51").unwrap(), 1).unwrap();
+    addr.get_unlocking_script(&pk, &sig).is_ok()
+}
+fn c12_bsm_testnet() -> bool {
+    let key = PrivateKey::from_hex("0000000000000000000000000000000000000000000000000000000000000001").unwrap();
+    let addr = key.to_public_key().unwrap().to_p2pkh_address().unwrap().set_chain_params(&ChainParams::testnet()).unwrap();
+    let sig = BSM::sign_message(&key, b"hello").unwrap();
+    BSM::verify_message(b"hello", &sig, &addr).unwrap_or(false)
+}
+fn c08_xprv_bad_checksum() -> bool {
+    let x = ExtendedPrivateKey::from_seed(&[7u8; 32]).unwrap();
+    let s = x.to_string().unwrap();
+    let mut c: Vec<char> = s.chars().collect();
+    let last = c.len() - 1;
+    c[last] = if c[last] == '2' { '3' } else { '2' };
+    let bad: String = c.into_iter().collect();
+    ExtendedPrivateKey::from_string(&bad).is_err()
+}
+fn c09_ecies_short() -> bool { no_panic(|| ECIESCiphertext::from_bytes(&[1, 2, 3], true).is_err()) && no_panic(|| ECIESCiphertext::from_bytes(&[1, 2, 3], false).is_err()) }
+fn c05_random_k_verifies() -> bool {
+    let key = PrivateKey::from_hex("0000000000000000000000000000000000000000000000000000000000000002").unwrap();
+    let pk = key.to_public_key().unwrap();
+    let sig = ECDSA::sign_with_random_k(&key, b"msg", SigningHash::Sha256, false).unwrap();
+    ECDSA::verify_digest(b"msg", &pk, &sig, SigningHash::Sha256).unwrap_or(false)
+}
+
 fn main() {
     let args: Vec<String> = std::env::args().collect();
     let name = args.get(1).map(|s| s.as_str()).unwrap_or("");
     let ok = match name {
         "c04_set_input" => c04_set_input(),
         "c04_set_output" => c04_set_output(),
+        "c02_truncated_direct_push" => c02_truncated_direct_push(),
+        "c02_truncated_pushdata" => c02_truncated_pushdata(),
+        "c02_pushdata_65536" => c02_pushdata_65536(),
+        "c01_varint_bytes_300" => c01_varint_bytes_300(),
+        "c09_txout_huge_script_len" => c09_txout_huge_script_len(),
+        "c09_txout_truncated_script" => c09_txout_truncated_script(),
+        "c03_hash_sequence_le" => c03_hash_sequence_le(),
+        "c10_nested_codeseparator" => c10_nested_codeseparator(),
+        "c10_single_index1" => c10_single_index1(),
+        "c20_ctr_short_key" => c20_ctr_short_key(),
+        "c09_compact_empty" => c09_compact_empty(),
+        "c06_der_ending_in_flag_byte" => c06_der_ending_in_flag_byte(),
+        "c09_digest_wrong_len" => c09_digest_wrong_len(),
+        "c07_offcurve_pubkey" => c07_offcurve_pubkey(),
+        "c09_wif_short" => c09_wif_short(),
+        "c07_short_address" => c07_short_address(),
+        "c07_unlocking_script_testnet" => c07_unlocking_script_testnet(),
+        "c12_bsm_testnet" => c12_bsm_testnet(),
+        "c08_xprv_bad_checksum" => c08_xprv_bad_checksum(),
+        "c09_ecies_short" => c09_ecies_short(),
+        "c05_random_k_verifies" => c05_random_k_verifies(),
         _ => { eprintln!("unknown probe {}", name); std::process::exit(2) }
     };
     println!("{}: {}", name, if ok { "HOLDS" } else { "FAILS" });
